@@ -411,6 +411,13 @@ func (fg *FuncGen) binop(v *ssa.BinOp) {
 		}
 	}
 	fg.define(v, term)
+	if v.Op == token.ADD {
+		if phi, ok := v.X.(*ssa.Phi); ok && phi.Comment == "rangeindex" {
+			if li := fg.loops[phi.Block()]; li != nil && li.iterSym != "" && v.Block() == phi.Block() {
+				fg.emit("(assert (= %s %s))", fg.val[v][0].S, li.iterSym)
+			}
+		}
+	}
 }
 
 func isNilConst(v ssa.Value) bool {
@@ -966,5 +973,6 @@ func (fg *FuncGen) assumeTypeInv(t types.Type, ref string, cond string) {
 	if ti == nil {
 		return
 	}
+	_ = cond
 	fg.assume("(=> " + cond + " " + fg.typeInvTerm(ti, t, ref) + ")")
 }
